@@ -306,10 +306,81 @@ func mutate(r *rand.Rand, seed []byte, others [][]byte) ([]byte, string) {
 	}
 }
 
+// c05SparseGroups hand-assembles a valid VP8L file (LSB-first bit packing, as the format defines): no transforms, no colour
+// cache, meta prefix image of 1x1 (prefix bits 9) whose pixel names group `top`, then top+1 groups of five single-symbol
+// simple codes; every pixel of the w x h picture costs zero bits.
+func c05SparseGroups(r *rand.Rand) []byte {
+	return c05SparseGroupsN(r, pickI(r, 1200, 3000, 8000, 8000, 12000))
+}
+
+func c05SparseGroupsN(r *rand.Rand, top int) []byte {
+	w := 160 + r.Intn(90)
+	h := (top+w)/w + 1 + r.Intn(40) // at least top+1 pixels
+	var out []byte
+	var acc uint64
+	nb := uint(0)
+	put := func(v uint32, n uint) {
+		acc |= uint64(v) << nb
+		nb += n
+		for nb >= 8 {
+			out = append(out, byte(acc))
+			acc >>= 8
+			nb -= 8
+		}
+	}
+	simple1 := func(sym uint32) { // simple code, one symbol
+		put(1, 1) // simple
+		put(0, 1) // num_symbols - 1
+		if sym < 2 {
+			put(0, 1) // is_first_8bits = 0: 1-bit symbol
+			put(sym, 1)
+		} else {
+			put(1, 1)
+			put(sym, 8)
+		}
+	}
+	put(0x2f, 8)
+	put(uint32(w-1), 14)
+	put(uint32(h-1), 14)
+	put(0, 1) // alpha_is_used
+	put(0, 3) // version
+	put(0, 1) // no transform
+	put(0, 1) // no colour cache
+	put(1, 1) // meta prefix codes present
+	put(9-2, 3)
+	// entropy image (1x1, its own stream: no cache, one group): pixel = group index in red<<8 | green
+	put(0, 1)
+	simple1(uint32(top & 0xff))      // green
+	simple1(uint32(top >> 8 & 0xff)) // red
+	simple1(0)                       // blue
+	simple1(0)                       // alpha
+	simple1(0)                       // distance
+	// the groups of the main image
+	for g := 0; g <= top; g++ {
+		simple1(uint32(g & 1))    // green / length / cache alphabet: literal green 0 or 1
+		simple1(uint32(g >> 1 & 1)) // red
+		simple1(1)                // blue
+		simple1(1)                // alpha (255 would need 8 bits; any value is a valid picture)
+		simple1(0)                // distance
+	}
+	if nb > 0 {
+		put(0, 8-nb)
+	}
+	return riffWrap(chunk("VP8L", out))
+}
+
 // handmade inputs: declaration bombs and header-prefixed garbage.
 func c05Handmade(r *rand.Rand, i int) ([]byte, string) {
 	le24 := func(v int) []byte { return []byte{byte(v), byte(v >> 8), byte(v >> 16)} }
-	switch i % 13 {
+	switch i % 14 {
+	case 13:
+		// valid VP8L picture whose 1x1 entropy image names one high prefix-code group: the stream has to carry every
+		// group up to that index (20 bits each as single-symbol codes), the picture uses one. Memory has to follow the
+		// input (a few bytes per unused group at most), not index x table size.
+		if (i/14)%8 == 0 { // one slot in eight: these inputs cost a few hundred milliseconds per entry point
+			return c05SparseGroups(r), "vp8l-sparse-groups"
+		}
+		fallthrough
 	case 12: // valid, very narrow VP8L pictures (widths 1..7: most plane codes map to distances < 1 and are clamped)
 		p := vp8l.DefaultParams()
 		p.W, p.H = 1+r.Intn(7), 1+r.Intn(40)
@@ -411,7 +482,8 @@ type c05Result struct {
 	Detail  string `json:"detail,omitempty"`
 	Alloc   uint64 `json:"alloc"`
 	Bound   uint64 `json:"bound"`
-	Accept  int    `json:"accept"` // entry points that returned nil error
+	Live    uint64 `json:"live,omitempty"` // peak live heap of a second, sampled run (only taken when Alloc > Bound)
+	Accept  int    `json:"accept"`         // entry points that returned nil error
 	Workers int    `json:"workers,omitempty"`
 }
 
@@ -657,10 +729,65 @@ func c05RunOne(data []byte) (res c05Result) {
 	entry = "accounting"
 	runtime.ReadMemStats(&ms1)
 	res.Alloc = ms1.TotalAlloc - ms0.TotalAlloc
-	if res.Alloc > bound {
-		fail("alloc-bound", fmt.Sprintf("allocated %d bytes for a %d-byte input declaring %d px (canvas %d): bound %d", res.Alloc, len(data), area, canvas, bound))
+	if res.Alloc > bound && !c05Probing && res.Class == "" {
+		// Cumulative allocation is a cheap over-approximation of memory use (it counts garbage: a decoder that builds and
+		// drops a small table per unused prefix-code group allocates kilobytes per input byte in total and holds next to
+		// nothing). The property bounds memory, so the verdict comes from a second run with the collector kept eager and
+		// the live heap sampled: only live memory above the bound is a violation.
+		res.Live = c05PeakLive(data)
+		// the 64 MiB of slack in the cumulative bound are there for garbage; live memory gets 32 MiB
+		if liveBound := bound - 32<<20; res.Live > liveBound {
+			bound = liveBound
+			fail("alloc-bound", fmt.Sprintf("peak live heap %d bytes (cumulative allocation %d) for a %d-byte input declaring %d px (canvas %d): bound %d", res.Live, res.Alloc, len(data), area, canvas, bound))
+		}
 	}
 	return res
+}
+
+var c05Probing bool
+
+// c05CaseClock is when the child's watchdog started counting for the current input; the live-heap probe, a second run
+// of the same input, restarts it so that it gets a budget of its own.
+var c05CaseClock atomic.Int64
+
+// c05PeakLive runs every entry point on the input once more with GOGC=5 and a sampler that forces a collection and then reads runtime.MemStats.HeapAlloc
+// (the child executes one input at a time) and returns the largest live heap seen above the level before the run.
+func c05PeakLive(data []byte) uint64 {
+	old := debug.SetGCPercent(5)
+	defer debug.SetGCPercent(old)
+	runtime.GC()
+	var m runtime.MemStats
+	runtime.ReadMemStats(&m)
+	base := m.HeapAlloc
+	stop := make(chan struct{})
+	peakCh := make(chan uint64, 1)
+	go func() {
+		var ms runtime.MemStats
+		peak := uint64(0)
+		for {
+			select {
+			case <-stop:
+				peakCh <- peak
+				return
+			default:
+			}
+			runtime.GC() // a full collection, then the figure: what survives is live (plus what was allocated meanwhile)
+			runtime.ReadMemStats(&ms)
+			if ms.HeapAlloc > peak {
+				peak = ms.HeapAlloc
+			}
+		}
+	}()
+	c05Probing = true
+	c05CaseClock.Store(time.Now().UnixNano())
+	c05RunOne(data)
+	c05Probing = false
+	close(stop)
+	peak := <-peakCh
+	if peak < base {
+		return 0
+	}
+	return peak - base
 }
 
 func trimTail2(s string, n int) string {
@@ -727,7 +854,7 @@ func c05Worker(args []string) int {
 	resf, _ := os.OpenFile(args[2], os.O_CREATE|os.O_WRONLY|os.O_TRUNC, 0o644)
 	enc := json.NewEncoder(resf)
 	var cur atomic.Int64
-	var started atomic.Int64
+	started := &c05CaseClock
 	var budget atomic.Int64
 	cur.Store(-1)
 	go func() { // watchdog on CPU-independent but generous wall budget per case
@@ -772,7 +899,7 @@ func runC05(c *ev.Ctx) {
 		"DecodeFramesParallel+NewAnimDecoder+NextFrame) on structure-aware mutations (22 operators incl. size-field edits, chunk drop/dup/swap/splice, header edits, truncation, " +
 		"frame repetition) of valid lossy/lossless/alpha/extended/animated/synthesized files (incl. extreme aspect ratios such as 16000x9), plus hand-made declaration bombs and header-prefixed garbage; " +
 		"per input (by a hash of its bytes) the internal worker count is left at GOMAXPROCS=2 or forced to 16/5/37 and the reader is a bytes.Reader, a reader without Len() or short reads; in child processes under " +
-		"ulimit -v with per-case logging; oracles: no panic / fatal / child death, watchdog (3 isolated re-runs before a verdict), TotalAlloc <= 64MiB + 64*len + 48*(declared px), " +
+		"ulimit -v with per-case logging; oracles: no panic / fatal / child death, watchdog (3 isolated re-runs before a verdict), TotalAlloc <= 64MiB + 64*len + 48*(declared px) - and, where the cumulative figure is above that, peak live heap of a second run sampled after forced collections <= that bound minus 32 MiB (only that is a verdict), " +
 		"well-formed results; plus a scaling probe: 108 families of n repeated units (chunk kinds x container heads x tails) at n and 4n, CPU time ratio > 10 with >= 0.4 s CPU, three times in a row = superlinear-time; " +
 		"distinct = distinct (mutation operator, seed kind, number of accepting entry points) tuples"
 	c.Assume("declared pixel area is computed by a tolerant scanner that over-approximates (every header-looking byte sequence counts)")
@@ -930,6 +1057,9 @@ func c05RunBatch(c *ev.Ctx, exe, dir string, b int, inputs []c05Input, scale int
 					site = panicFunc(r.Detail)
 				}
 				c.Violate(ev.Case{Idx: base + i, Desc: inputs[i].desc}, r.Class, map[string]string{"entry": r.Entry, "site": site}, r.Detail, map[string]string{"file": b64(inputs[i].data)})
+			}
+			if r.Alloc > r.Bound && r.Class == "" {
+				c.Count("cumulative_allocation_above_bound_but_peak_live_heap_below", 1)
 			}
 			if (base+i)%9001 == 0 {
 				c.Sample(map[string]any{"input": inputs[i].desc, "len": len(inputs[i].data), "accepting_entry_points": r.Accept, "alloc": r.Alloc, "bound": r.Bound})
